@@ -78,11 +78,28 @@ char *__wrap_strndup (const char *s, size_t n) { char *p = __real_strndup (s, n)
 static int o_rc; static const char *o_out; static int o_buf;   /* the oracle's answer */
 static const char *o_expect;                                  /* argument the model passes */
 static int idn_calls, idn_argok;
+int __real_idn2_to_ascii_8z (const char *input, char **output, int flags);
 int __wrap_idn2_to_ascii_8z (const char *input, char **output, int flags)
 {
     (void) flags;
     idn_calls++;
-    if (o_expect == NULL || strcmp (input, o_expect) != 0) idn_argok = 0;
+    if (o_expect == NULL || strcmp (input, o_expect) != 0) {
+        /* the library hands the IDN library something else than the domain the answer in the case line was computed for:
+           that answer says nothing about this argument; give the one the real library gives for it */
+        idn_argok = 0;
+        if (input != NULL) {
+            char *real_out = NULL;
+            int rc = __real_idn2_to_ascii_8z (input, &real_out, flags);
+            if (rc == 0 && real_out) {
+                size_t n = strlen (real_out);
+                char *p = __wrap_malloc (n + 1);
+                memcpy (p, real_out, n + 1);
+                *output = p;
+            }
+            if (real_out) idn2_free (real_out);
+            return rc;
+        }
+    }
     if (o_rc == 0) {
         size_t n = strlen (o_out);
         char *p = __wrap_malloc (n + 1);
